@@ -3,6 +3,7 @@
    the guard the Go code tests implies that the access behind it is in range / non-nil -- e.g. line[1:len(line)-1]
    after HasPrefix "[" and HasSuffix "]", items[len(format)-1] after len(format) != 0 and len(items) >= len(format),
    the store into the format map after a section header has made it, the pending lineItem after len(matches) > 0. *)
+From Coq Require Import Strings.String.
 From Coq Require Import List ZArith NArith Bool Arith Lia Permutation.
 From Astisub Require Import Kit.Base Kit.Str Kit.Scan Kit.Chk Model.Dur Model.DurC Model.Ssa Model.SsaC.
 From Astisub Require Import Proofs.DurChk Proofs.SrtChk Proofs.SsaLines Proofs.SsaIgnore Proofs.SsaOrder.
@@ -281,3 +282,184 @@ Theorem read_ssa_lines_c_ok o ls e : read_ssa_lines_c o ls e = read_ssa_lines ls
 Proof. unfold read_ssa_lines_c. rewrite on_unknown_c_ok, on_invalid_c_ok. apply read_ssa_lines_h_ok. Qed.
 Theorem read_ssa_c_ok o data : read_ssa_c o data = read_ssa data.
 Proof. apply read_ssa_lines_c_ok. Qed.
+
+(* ---------------------------------------------------------------- the writer *)
+Lemma script_info_c_ok m : script_info_c m = Ok (match m with Some x => x | None => ainfo0 end).
+Proof. destruct m; reflexivity. Qed.
+Lemma info_num_line_c_ok k b site : info_num_line_c k b site = Ok (info_num_line k b).
+Proof. unfold info_num_line_c, info_num_line. destruct (nget k b); reflexivity. Qed.
+Theorem info_bytes_c_ok b : info_bytes_c b = Ok (info_bytes b).
+Proof.
+  unfold info_bytes_c, info_bytes. rewrite !info_num_line_c_ok. cbn [bind].
+  destruct (an_timer b); reflexivity.
+Qed.
+
+(* ssaStyle.string: every pointer is dereferenced behind its nil test *)
+Lemma style_cell_string_c_ok a s : style_cell_string_c a s = Ok (style_cell_string a s).
+Proof.
+  destruct a as [x|x|x|x| |]; cbn [style_cell_string_c style_cell_string]; try reflexivity.
+  - destruct (bget x s); reflexivity.
+  - destruct (cget x s); reflexivity.
+  - destruct (fget x s); reflexivity.
+  - destruct (iget x s); reflexivity.
+Qed.
+Lemma style_cells_string_c_ok fmt s :
+  style_cells_string_c fmt s = Ok (opt_cells (map (fun a => style_cell_string a s) fmt)).
+Proof.
+  induction fmt as [|a r IH]; [reflexivity|]. cbn [style_cells_string_c map opt_cells].
+  rewrite style_cell_string_c_ok, IH. cbn [bind]. destruct (style_cell_string a s); reflexivity.
+Qed.
+Theorem style_string_c_ok s fmt : style_string_c s fmt = Ok (style_string s fmt).
+Proof. unfold style_string_c, style_string. rewrite style_cells_string_c_ok. reflexivity. Qed.
+
+(* *s behind "style != nil": the identifiers that are ranged over are those whose element is not nil *)
+Lemma styles_loop_c_ok d ids :
+  (forall id, In id ids -> exists st, sm_get id (ad_styles d) = Some (Some st)) ->
+  styles_loop_c d ids = Ok (opt_cells (map (fun k => match sm_get k (ad_styles d) with Some o => o | None => None end) ids)).
+Proof.
+  induction ids as [|id r IH]; intros H; [reflexivity|]. cbn [styles_loop_c map opt_cells].
+  destruct (H id (or_introl eq_refl)) as (st & E). rewrite E. cbn [deref bind].
+  rewrite IH by (intros x Hx; apply H; right; exact Hx). reflexivity.
+Qed.
+(* styles[n] behind the store styles[ss.name] = ss of the first loop *)
+Lemma sm_get_set_eq {V} k (v : V) m : sm_get k (sm_set k v m) = Some v.
+Proof.
+  induction m as [|[k' v'] r IH]; cbn [sm_set sm_get]; [rewrite str_eqb_refl; reflexivity|].
+  destruct (str_eqb k k') eqn:E; cbn [sm_get]; [rewrite str_eqb_refl; reflexivity | rewrite E; exact IH].
+Qed.
+Lemma sm_get_set_mono {V} n k (v : V) m : is_some (sm_get n m) = true -> is_some (sm_get n (sm_set k v m)) = true.
+Proof.
+  induction m as [|[k' v'] r IH]; cbn [sm_set sm_get]; [discriminate|]. intros H.
+  destruct (str_eqb k k') eqn:E; cbn [sm_get].
+  - apply str_eqb_eq in E. subst k'. destruct (str_eqb n k); [reflexivity | exact H].
+  - destruct (str_eqb n k'); [reflexivity | apply IH; exact H].
+Qed.
+Lemma tbl_has sts : forall (m : list (str * astyle)) n,
+  is_some (sm_get n m) = true \/ In n (map ay_name sts) ->
+  is_some (sm_get n (fold_left (fun m st => sm_set (ay_name st) st m) sts m)) = true.
+Proof.
+  induction sts as [|st r IH]; intros m n H; cbn [fold_left].
+  - destruct H as [H|[]]. exact H.
+  - apply IH. cbn [map In] in H. destruct H as [H|[H|H]].
+    + left. apply sm_get_set_mono. exact H.
+    + left. subst n. rewrite sm_get_set_eq. reflexivity.
+    + right. exact H.
+Qed.
+Lemma style_rows_c_ok tbl fmt names :
+  (forall n, In n names -> is_some (sm_get n tbl) = true) ->
+  style_rows_c tbl fmt names =
+  Ok (concat (map (fun n => match sm_get n tbl with Some st => n_style_pfx ++ style_string st fmt ++ nl | None => [] end) names)).
+Proof.
+  induction names as [|n r IH]; intros H; [reflexivity|]. cbn [style_rows_c map concat].
+  pose proof (H n (or_introl eq_refl)) as Hn. destruct (sm_get n tbl) as [st|]; [|discriminate]. cbn [deref bind].
+  rewrite style_string_c_ok. cbn [bind]. rewrite IH by (intros x Hx; apply H; right; exact Hx). cbn [bind].
+  rewrite <- !app_assoc. reflexivity.
+Qed.
+Lemma styles_bytes_c_ok d order : styles_bytes_c d order (is_v4plus d) = Ok (styles_bytes d order).
+Proof.
+  unfold styles_bytes_c, styles_bytes.
+  set (ids := ssort (filter (fun k => match sm_get k (ad_styles d) with Some (Some _) => true | _ => false end) order)).
+  assert (Hids : forall id, In id ids -> exists st, sm_get id (ad_styles d) = Some (Some st)).
+  { intros id Hin. apply (Permutation_in _ (Permutation_sym (ssort_perm _))) in Hin. apply filter_In in Hin.
+    destruct Hin as [_ Hp]. destruct (sm_get id (ad_styles d)) as [[st|]|]; try discriminate. exists st. reflexivity. }
+  rewrite (styles_loop_c_ok d ids Hids). cbn [bind].
+  set (sts := opt_cells (map (fun k => match sm_get k (ad_styles d) with Some o => o | None => None end) ids)).
+  rewrite style_rows_c_ok; [reflexivity|].
+  intros n Hin. apply (Permutation_in _ (Permutation_sym (ssort_perm _))) in Hin. apply tbl_has. right. exact Hin.
+Qed.
+
+(* newSSAEventFromItem *)
+Lemma run_string_c_ok r : run_string_c r = Ok (run_string r).
+Proof. unfold run_string_c, run_string. destruct (ar_eff r); reflexivity. Qed.
+Lemma runs_string_c_ok rs : runs_string_c rs = Ok (concat (map run_string rs)).
+Proof. induction rs as [|r t IH]; [reflexivity|]. cbn [runs_string_c map concat]. rewrite run_string_c_ok, IH. reflexivity. Qed.
+Lemma lines_string_c_ok ls : lines_string_c ls = Ok (map line_string ls).
+Proof.
+  induction ls as [|l t IH]; [reflexivity|]. cbn [lines_string_c map]. rewrite runs_string_c_ok, IH. reflexivity.
+Qed.
+Theorem event_of_item_c_ok i : event_of_item_c i = Ok (event_of_item i).
+Proof.
+  unfold event_of_item_c, event_of_item, item_text_ssa. rewrite lines_string_c_ok.
+  destruct (ai_style i); destruct (ai_inl i); reflexivity.
+Qed.
+(* ssaEvent.string *)
+Lemma event_cell_string_c_ok a e : event_cell_string_c a e = Ok (event_cell_string a e).
+Proof.
+  destruct a; cbn [event_cell_string_c event_cell_string]; try reflexivity; unfold int_cell_c, oz.
+  - destruct (av_layer e); reflexivity.
+  - destruct (av_ml e); reflexivity.
+  - destruct (av_mr e); reflexivity.
+  - destruct (av_mv e); reflexivity.
+  - destruct (av_marked e) as [[]|]; reflexivity.
+Qed.
+Lemma event_cells_string_c_ok fmt e : event_cells_string_c fmt e = Ok (map (fun a => event_cell_string a e) fmt).
+Proof.
+  induction fmt as [|a r IH]; [reflexivity|]. cbn [event_cells_string_c map]. rewrite event_cell_string_c_ok, IH. reflexivity.
+Qed.
+Theorem event_string_c_ok e fmt : event_string_c e fmt = Ok (event_string e fmt).
+Proof. unfold event_string_c, event_string. rewrite event_cells_string_c_ok. reflexivity. Qed.
+Lemma event_rows_c_ok items fmt :
+  event_rows_c items fmt = Ok (concat (map (fun i => n_dialogue_pfx ++ event_string (event_of_item i) fmt ++ nl) items)).
+Proof.
+  induction items as [|i r IH]; [reflexivity|]. cbn [event_rows_c map concat].
+  rewrite event_of_item_c_ok. cbn [bind]. rewrite event_string_c_ok. cbn [bind]. rewrite IH. cbn [bind].
+  rewrite <- !app_assoc. reflexivity.
+Qed.
+Lemma events_bytes_c_ok d : events_bytes_c d (is_v4plus d) = Ok (events_bytes d).
+Proof. unfold events_bytes_c, events_bytes. rewrite event_rows_c_ok. reflexivity. Qed.
+
+Theorem write_ssa_chunks_c_ok d order : write_ssa_chunks_c d order = write_ssa_chunks d order.
+Proof.
+  unfold write_ssa_chunks_c, write_ssa_chunks. destruct (ad_items d) as [|it r] eqn:Ei; [reflexivity|]. cbn [length Nat.eqb].
+  rewrite script_info_c_ok. cbn [bind]. rewrite info_bytes_c_ok. cbn [bind].
+  assert (Ev : (if is_some (ad_meta d) then do m <- deref (ad_meta d) 1211; Ok (str_eqb (an_scripttype m) n_v4plus) else Ok false) =
+               Ok (is_v4plus d)) by (unfold is_v4plus; destruct (ad_meta d); reflexivity).
+  rewrite Ev. cbn [bind]. rewrite events_bytes_c_ok.
+  destruct (ad_styles d) as [|kv sr] eqn:Es; [reflexivity|].
+  change (Nat.ltb 0 (length (kv :: sr))) with true. cbv iota. rewrite styles_bytes_c_ok. reflexivity.
+Qed.
+(* THE CHECKED WRITER AGREES WITH THE WRITER OF THE FIDELITY THEOREMS *)
+Theorem write_ssa_c_ok d order : write_ssa_c d order = write_ssa d order.
+Proof. unfold write_ssa_c, write_ssa. rewrite write_ssa_chunks_c_ok. destruct (write_ssa_chunks d order); reflexivity. Qed.
+
+(* ---------------------------------------------------------------- totality, now with content: no panic site of ssa.go is reachable *)
+Theorem read_ssa_lines_c_no_panic o ls e p : read_ssa_lines_c o ls e <> Panic p.
+Proof. rewrite read_ssa_lines_c_ok. apply read_no_panic. Qed.
+Theorem read_ssa_c_no_panic o data p : read_ssa_c o data <> Panic p.
+Proof. apply read_ssa_lines_c_no_panic. Qed.
+Theorem write_ssa_c_no_panic d order p : write_ssa_c d order <> Panic p.
+Proof. rewrite write_ssa_c_ok. apply write_no_panic. Qed.
+Theorem style_from_string_c_no_panic content fmt p : style_from_string_c content fmt <> Panic p.
+Proof. rewrite style_from_string_c_ok. apply style_from_string_no_panic. Qed.
+Theorem event_from_string_c_no_panic header content fmt p : fmt <> [] -> event_from_string_c header content fmt <> Panic p.
+Proof. intros H. rewrite event_from_string_c_ok by exact H. apply event_from_string_no_panic. exact H. Qed.
+
+(* ---- nil elements inside Items: skipped (nonNilItems), which is the guard of *i ---- *)
+Theorem write_ssa_items_c_no_panic items d order p : write_ssa_items_c items d order <> Panic p.
+Proof. apply write_ssa_c_no_panic. Qed.
+Theorem ssa_nil_items_skipped (l : list aitem) (a b : list (option aitem)) d order :
+  write_ssa_items_c (map Some l) d order = write_ssa_c (mkAdoc (ad_meta d) (ad_styles d) l) order /\
+  write_ssa_items_c (a ++ None :: b) d order = write_ssa_items_c (a ++ b) d order.
+Proof.
+  unfold write_ssa_items_c. split; [rewrite somes_map_Some; reflexivity|]. rewrite !somes_app. reflexivity.
+Qed.
+
+(* ---- the guards are what keeps the sites unreachable: the same steps without their guard do panic ---- *)
+Definition opts_nil : ssa_opts := mkSsaOpts None None.
+(* a nil OnInvalidLine called without the test of L197, on the line "no colon here" in the script info section *)
+Example unguarded_invalid_callback_panics :
+  ssa_kv_h (deref (so_invalid opts_nil) 198) (mkCstate SInfo None ainfo0 [] []) (s2l "no colon here"%string) = Panic 198 /\
+  ssa_kv_h (on_invalid_c opts_nil) (mkCstate SInfo None ainfo0 [] []) (s2l "no colon here"%string) = Ok (mkCstate SInfo None ainfo0 [] []).
+Proof. split; vm_compute; reflexivity. Qed.
+Example unguarded_invalid_callback_panics_doc :
+  read_ssa_lines_h (on_unknown_c opts_nil) (deref (so_invalid opts_nil) 198) [s2l "[Script Info]"%string; s2l "no colon here"%string] false = Panic 198 /\
+  read_ssa_lines_h (deref (so_unknown opts_nil) 176) (on_invalid_c opts_nil) [s2l "[Fonts]"%string] false = Panic 176 /\
+  exists d, read_ssa_lines_c opts_nil [s2l "[Script Info]"%string; s2l "no colon here"%string; s2l "[Fonts]"%string] false = Ok d.
+Proof. split; [vm_compute; reflexivity|]. split; [vm_compute; reflexivity|]. eexists. vm_compute. reflexivity. Qed.
+(* a Format line stored before any section header has made the map; a row decoded against an empty format *)
+Example unguarded_sites_panic :
+  format_store_c None [s2l "Text"%string] = Panic 216 /\
+  event_from_string_c (s2l "Dialogue"%string) (s2l "x"%string) [] = Panic 977 /\
+  slice_range [91] 1 (length [91] - 1) 162 = Panic 162 /\
+  line_runs_c [] = Ok [mkArun [] None] /\ deref (@None str) 1112 = Panic 1112.
+Proof. repeat split. Qed.
